@@ -19,7 +19,7 @@ ASSUMPTIONS = ["bodies are drawn from every operator and assertion with operands
                "whose condition is 1: the tail must end exactly as in the twin from which the whole history is blanked (same exception "
                "class at the same instruction, else the same values), every recorded constraint must hold when the run completes, and "
                "the program is model-compared at V+S+W; tail operands are created before the history"]
-PARTIAL = []
+PARTIAL = ["operand conditions of stepOk include selOk (selection between lists: equal lengths) and asetOk (array write through a secret index: the stored row has the array's row length) since the repairs 1d9e8b8 / d9fc663: a length mismatch is refused with ValueError in EVERY state, guarded or not (C07_length_check_any_state: caused by public structure, not by values under the guard)"]
 LEVELS = "VSW"
 VALUE_ERRORS = ("AssertionError", "ValueError", "ZeroDivisionError")
 
